@@ -641,4 +641,104 @@ theorem row_read_semi (c : Cell) (t : List Cell) (hc : CellWFsemi c) (ht : ∀ x
   exact inferCell_semi x (ht x hx)
 
 
+/-! ## arbitrary sequences of cells and array rows -/
+
+/-- the rows that get written, from the documented behaviour: a cell is appended to the pending row, an array *is*
+    the pending row, the row is written when it has exactly `n` cells -/
+def normalise (n : Nat) : List WItem → List Cell → List (List Cell)
+  | [], _ => []
+  | .cell c :: t, p => if (p ++ [c]).length == n then (p ++ [c]) :: normalise n t [] else normalise n t (p ++ [c])
+  | .arr cs :: t, _ => if cs.length == n then cs :: normalise n t [] else normalise n t cs
+
+/-- every cell handed over, alone or inside an array, is well formed -/
+def ItemWF : WItem → Prop
+  | .cell c => CellWF c
+  | .arr cs => ∀ c ∈ cs, CellWF c
+
+theorem putItems_normalise (items : List WItem) (hi : ∀ it ∈ items, ItemWF it) (w : WState) :
+    (items.foldl putItem w).text = w.text ++ rowsOut w.dataStarted (normalise w.ncols items w.row) := by
+  induction items generalizing w with
+  | nil => simp [normalise, rowsOut]
+  | cons it t ih =>
+    have ht : ∀ x ∈ t, ItemWF x := fun x hx => hi x (by simp [hx])
+    simp only [List.foldl_cons]
+    cases it with
+    | cell c =>
+      have hc : CellWF c := hi (.cell c) (by simp)
+      have hx : (c == Cell.str [10]) = false := cell_ne_newline c hc
+      by_cases hl : ((w.row ++ [c]).length == w.ncols) = true
+      · have hstep : putItem w (.cell c) =
+            { w with text := w.text ++ (if w.dataStarted then [] else [10]) ++ writeRow 44 34 (w.row ++ [c]) ++ [10],
+                     row := [], dataStarted := true } := by
+          simp only [putItem, putCell, hx, Bool.false_and, Bool.false_eq_true, if_false, hl, Bool.or_false, if_true]
+        rw [hstep, ih ht]
+        simp only [normalise, hl, if_true, rowsOut, rowOut]
+        simp [List.append_assoc]
+      · have hl' : ((w.row ++ [c]).length == w.ncols) = false := by simpa using hl
+        have hstep : putItem w (.cell c) = { w with row := w.row ++ [c] } := by
+          simp only [putItem, putCell, hx, Bool.false_and, Bool.false_eq_true, if_false, hl', Bool.or_false]
+        rw [hstep, ih ht]
+        simp only [normalise, hl', Bool.false_eq_true, if_false]
+    | arr cs =>
+      by_cases hl : (cs.length == w.ncols) = true
+      · have hstep : putItem w (.arr cs) =
+            { w with text := w.text ++ (if w.dataStarted then [] else [10]) ++ writeRow 44 34 cs ++ [10],
+                     row := [], dataStarted := true } := by
+          simp only [putItem, putArray, hl, if_true]
+        rw [hstep, ih ht]
+        simp only [normalise, hl, if_true, rowsOut, rowOut]
+        simp [List.append_assoc]
+      · have hl' : (cs.length == w.ncols) = false := by simpa using hl
+        have hstep : putItem w (.arr cs) = { w with row := cs } := by
+          simp only [putItem, putArray, hl', Bool.false_eq_true, if_false]
+        rw [hstep, ih ht]
+        simp only [normalise, hl', Bool.false_eq_true, if_false]
+
+theorem normalise_rows (n : Nat) (items : List WItem) (hi : ∀ it ∈ items, ItemWF it) (p : List Cell)
+    (hp : ∀ c ∈ p, CellWF c) : ∀ r ∈ normalise n items p, r.length = n ∧ ∀ c ∈ r, CellWF c := by
+  induction items generalizing p with
+  | nil => simp [normalise]
+  | cons it t ih =>
+    have ht : ∀ x ∈ t, ItemWF x := fun x hx => hi x (by simp [hx])
+    cases it with
+    | cell c =>
+      have hc : CellWF c := hi (.cell c) (by simp)
+      have hpc : ∀ x ∈ p ++ [c], CellWF x := by
+        intro x hx
+        rcases List.mem_append.mp hx with e | e
+        · exact hp x e
+        · simp at e; subst e; exact hc
+      simp only [normalise]
+      split
+      · rename_i hl
+        intro r hr
+        rcases List.mem_cons.mp hr with e | e
+        · subst e; exact ⟨by simpa using hl, hpc⟩
+        · exact ih ht [] (by simp) r e
+      · exact ih ht _ hpc
+    | arr cs =>
+      have hcs : ∀ c ∈ cs, CellWF c := hi (.arr cs) (by simp)
+      simp only [normalise]
+      split
+      · rename_i hl
+        intro r hr
+        rcases List.mem_cons.mp hr with e | e
+        · subst e; exact ⟨by simpa using hl, hcs⟩
+        · exact ih ht [] (by simp) r e
+      · exact ih ht _ hcs
+
+/-- any sequence of cells and array rows writes the same file as its normalised rows written cell by cell -/
+theorem writeItems_normalise (cols : List Bytes) (hne : cols ≠ []) (items : List WItem) (hi : ∀ it ∈ items, ItemWF it) :
+    writeItems cols items = writeTable cols (normalise cols.length items []).flatten := by
+  have hpos : 0 < cols.length := List.length_pos_iff.mpr hne
+  have hrows := normalise_rows cols.length items hi [] (by simp)
+  unfold writeItems writeTable
+  rw [putItems_normalise items hi (startTable cols),
+    putRows (startTable cols) (normalise cols.length items []) rfl (fun r hr => by
+      obtain ⟨h1, h2⟩ := hrows r hr
+      refine ⟨h1, ?_, h2⟩
+      intro e; subst e; simp at h1; omega)]
+  rfl
+
+
 end AslProofs.Csv
